@@ -27,7 +27,7 @@ func init() {
 			"requires the verif-tagged fid-table hook (p9p.VerifFidTable)",
 		},
 		Shards:   shards(8, 16),
-		Timeout:  timeouts(5*time.Minute, 30*time.Minute),
+		Timeout:  timeouts(12*time.Minute, 90*time.Minute),
 		MinEvals: 2000,
 		Required: []string{"cover:attach-ok", "cover:attach-dupfid", "cover:attach-with-afid", "cover:walk-dupfid", "cover:walk-partial", "cover:walk-complete-newfid", "cover:walk-complete-inplace", "cover:walk-unknown-fid",
 			"cover:clone-ok", "cover:open-already-open", "cover:open-file-ok", "cover:open-dir-ok", "cover:create-file-ok", "cover:create-dir-ok", "cover:read-not-open", "cover:read-mode-forbids", "cover:read-file-ok",
